@@ -12,7 +12,8 @@ EXTENDS OneShot, Json, TLC
 CONSTANTS MaxShards     \* bound on the total number of shards passed
 B == 64                 \* base shard size
 
-Pairs == {<<2, 1>>, <<1, 2>>, <<2, 2>>, <<3, 2>>, <<0, 1>>, <<1, 0>>, <<65536, 1>>, <<-1, 1>>}
+\* counts: powers of two and not (the padded positions between a count and its power of two must be rejected), both rates, unsupported ones
+Pairs == {<<2, 1>>, <<1, 2>>, <<2, 2>>, <<3, 2>>, <<3, 3>>, <<2, 3>>, <<0, 1>>, <<1, 0>>, <<65536, 1>>, <<-1, 1>>}
 LenPal == {B, B + 2, 1, 0}
 IdxPal(cnt) == {0, 1, -1} \cup (IF cnt >= 1 /\ cnt < 10 THEN {cnt - 1, cnt} ELSE {})
 Items(cnt) == {<<i, len>> : i \in IdxPal(cnt), len \in LenPal}
